@@ -41,6 +41,12 @@ json Chunk::to_json() const
 		j["inc"] = inc;
 	if (faulty)
 		j["faulty"] = 1;
+	if (!incs.empty()) {
+		json a = json::array();
+		for (auto &i : incs)
+			a.push_back(json::array({i.s, i.e, i.path}));
+		j["incs"] = a;
+	}
 	return j;
 }
 
